@@ -104,7 +104,10 @@ def gen_case(rng, fn):
         ax = rng.randrange(-r, r)
         n = shape[ax]
         ind = [rng.randrange(-n, n) for _ in range(rng.randrange(0, 5))]
-        return [shape], {"axis": ax, "indices": ind}
+        idt = rng.choice(["int64", "int64", "int32", "int8", "int16", "uint8", "uint16", "uint32", "uint64"])
+        if idt.startswith("u"):
+            ind = [v % n for v in ind]
+        return [shape], {"axis": ax, "indices": ind, "idt": idt}
     if fn in ("tril", "triu"):
         if r < 2:
             shape = shape + (2, 3)[: 2 - r]
@@ -141,7 +144,7 @@ def nd_call(fn, arrs, p, ndx):
     if fn == "broadcast_arrays":
         return ndx.broadcast_arrays(*arrs)
     if fn == "take":
-        return ndx.take(x, ndx.asarray(np.array(p["indices"], dtype=np.int64)), axis=p["axis"])
+        return ndx.take(x, ndx.asarray(np.array(p["indices"], dtype=np.dtype(p.get("idt", "int64")))), axis=p["axis"])
     if fn in ("tril", "triu"):
         return getattr(ndx, fn)(x, k=p["k"])
 
